@@ -13,6 +13,8 @@ from norm import nbit, max_f
 
 def getter_expr(facts, tname, g):
     fn = facts.need_method(tname, g, "Resampler")
+    if any(x.get("k") == "return" for x in walk(fn["body"])):
+        raise ir.AnchorMissing("%s::%s has an early return: its value is not a single expression of the state, so the agreement rules cannot vouch for it" % (tname, g))
     sx = SymExec(facts, tname)
     st = sx.run(fn)
     v = st.value if st.value is not None else st.returned
